@@ -180,6 +180,15 @@ Definition conc_consume_ok (i : cscenario) (o : cobs) : bool :=
     | _, r => completed r
     end) (co_events o) && co_parse_ok o.
 
+(* C14: deliveries are dispatched to the callback registered for their tag - also for a consumer
+   another thread has just registered: the consuming call never fails for want of a callback *)
+Definition conc_dispatch_ok (i : cscenario) (o : cobs) : bool :=
+  forallb (fun e => match ce_op e, ce_res e with
+                    | CDrain _, CRBodies _ None => true
+                    | CDrain _, _ => false
+                    | _, r => completed r
+                    end) (co_events o) && co_parse_ok o.
+
 (* ---------- C06: the transport dies while several threads work ---------- *)
 Definition conc_fault_ok (i : cscenario) (o : cobs) : bool :=
   (* nobody blocks for ever, nothing but AMQPConnectionError comes out *)
